@@ -313,6 +313,13 @@ def stack_stage(res, rng, tier):
             "max_publish_ms": max(o["send_ms"]) if o["send_ms"] else 0,
             "reading_subscriber_received": len(o["recv"][1] or []),
         }
+        if o["send_timed_out_at"] >= 0 or (o["send_ms"] and max(o["send_ms"]) >= 900):
+            sig = "C12:pub-blocks-on-stalled-subscriber"
+            res.violation({"property": PROP, "kind": "implementation violates property oracle (stack level)",
+                           "what": "a subscriber that never reads blocks PUB send() (publish #%d did not return within 1000 ms) "
+                                   "and so delays delivery to the reading subscriber" % o["send_timed_out_at"],
+                           "case": sc[0], "impl_obs": {k: o[k] for k in ("send_timed_out_at",)}, "harness": "c12",
+                           "signature": sig}, found_input=True, signature=sig)
 
 
 def shrink(c):
